@@ -23,12 +23,17 @@ import (
 // No prism code is executed: the interpreter manipulates symbolic terms only.
 
 type Event struct {
-	Kind string // "call", "invoke", "store"
+	Kind string // "call", "invoke", "store", "trace", ...
 	Fn   string
 	Recv Val
 	Args []Val
 	Res  Val
 	Pos  token.Pos
+	// CondIdx is the number of path conditions recorded before the event:
+	// it orders events relative to the path's branch decisions.
+	CondIdx int
+	// StreamPos is the position of the (single) input stream at the event.
+	StreamPos *Form
 }
 
 type State struct {
@@ -38,6 +43,15 @@ type State struct {
 	conds  []*BoolVal
 	pos    map[*Stream]*Form
 	events []Event
+}
+
+// addEvent appends an event stamped with the current path-condition count.
+func (s *State) addEvent(ev Event) {
+	ev.CondIdx = len(s.conds)
+	for _, p := range s.pos {
+		ev.StreamPos = p
+	}
+	s.events = append(s.events, ev)
 }
 
 // learn records `atom == constant` facts of a path condition.
@@ -170,6 +184,9 @@ type Engine struct {
 	// which cond holds should be dropped (recorded as a "cutoff" outcome).
 	// Used to keep bounded explorations of parse loops focused.
 	Prune func(cond *BoolVal) bool
+	// TraceCalls records an event for calls of the selected functions even
+	// though they are inlined.
+	TraceCalls func(fn *ssa.Function) bool
 	// SeqCalls makes results of the named uninterpreted calls distinct per
 	// call (stateful callees such as a segment reader).
 	SeqCalls func(fn string) bool
@@ -485,7 +502,7 @@ func (e *Engine) appOfType(fn string, t types.Type, args ...Val) Val {
 
 func (e *Engine) store(st *State, p *Ptr, v Val) string {
 	if p.Cell == nil {
-		st.events = append(st.events, Event{Kind: "store", Fn: "store", Recv: p, Args: []Val{v}})
+		st.addEvent(Event{Kind: "store", Fn: "store", Recv: p, Args: []Val{v}})
 		return ""
 	}
 	if p.SymIdx != nil {
@@ -493,7 +510,7 @@ func (e *Engine) store(st *State, p *Ptr, v Val) string {
 			q := &Ptr{Cell: p.Cell, Path: append(append([]int(nil), p.Path...), int(c))}
 			return e.store(st, q, v)
 		}
-		st.events = append(st.events, Event{Kind: "store", Fn: "store", Recv: p, Args: []Val{v}})
+		st.addEvent(Event{Kind: "store", Fn: "store", Recv: p, Args: []Val{v}})
 		return ""
 	}
 	nv, ok := updatePath(e.cellVal(st, p.Cell), p.Path, v)
@@ -713,7 +730,7 @@ func (e *Engine) exec(st *State, fr *frame, b, pred *ssa.BasicBlock, idx, depth 
 			case *ssa.MapUpdate:
 				m, ok := e.val(st, fr, in.Map).(*MapVal)
 				if !ok {
-					st.events = append(st.events, Event{Kind: "mapupdate", Fn: "mapupdate", Recv: e.val(st, fr, in.Map), Args: []Val{e.val(st, fr, in.Key), e.val(st, fr, in.Value)}, Pos: in.Pos()})
+					st.addEvent(Event{Kind: "mapupdate", Fn: "mapupdate", Recv: e.val(st, fr, in.Map), Args: []Val{e.val(st, fr, in.Key), e.val(st, fr, in.Value)}, Pos: in.Pos()})
 					break
 				}
 				st.maps[m.Cell] = append(st.maps[m.Cell], mapEntry{e.val(st, fr, in.Key), e.val(st, fr, in.Value)})
